@@ -4,9 +4,9 @@
    values, so with a disjoint layout each field reads back as the value its conversion produced;
    (2) field level — absent values, lookups and reserved bits reproduce the decoded bits exactly;
    an accepted number reads back (after the decoder's sign extension) as round(value/resolution),
-   never as "not available". (3) round(fl(fl(n)*r)/r) = n on IEEE doubles for |n| <= 2^48 is the
-   floating-point part: see DESIGN.md (C02_float, partial). *)
-From NV Require Import Base Bits Defn PyNum Fields Dispatch Template TemplateEnc Encode Spec SpecProofs EncodeProofs.
+   never as "not available". (3) C02_float: round(fl(fl(n)*r)/r) = n on IEEE doubles — the
+   decoded value of a number field re-encodes to exactly the original bits. *)
+From NV Require Import Base Bits Defn PyNum Fields Dispatch Template TemplateEnc Encode Spec SpecProofs EncodeProofs FloatRT.
 
 Theorem C02_payload : forall code_enc LE g d,
   edef_ok code_enc g d = true -> encodable d = true -> layout_ok d = true ->
@@ -41,9 +41,29 @@ Theorem C02_lookup_reserved : forall LE tbl f bits,
 Proof. intros LE tbl f bits. split; intros H; simpl; rewrite H; reflexivity. Qed.
 Print Assumptions C02_lookup_reserved.
 
+(* THE FLOATING-POINT PART. Whatever decode_number produced from a field's bits — None for the
+   not-available pattern, otherwise the double fl(fl(n) * resolution) (or the int n * k) that passed
+   the range check — encode_number turns back into exactly those bits: IEEE-754 binary64 error
+   analysis (Flocq) of the product, the quotient and Python's round-half-even, on the executable
+   model functions. Float resolutions (finite, 2^-300 <= |r| <= 2^300): fields of up to 48 bits
+   (49 signed) — the width the property names; integer resolution k: while 2^len * k <= 2^53. *)
+Theorem C02_float : forall bits len signed res mn mx val,
+  1 <= len -> (signed = true -> 4 <= len) -> 0 <= bits < 2 ^ len ->
+  num_field_ok len signed res ->
+  number_of_raw (sign_extend signed len bits) len signed res mn mx = Ok val ->
+  encode_number val len signed res = Ok bits.
+Proof. exact number_field_roundtrip. Qed.
+Print Assumptions C02_float.
+
 (* non-vacuity: a 16-bit signed number field at offset 8 next to an 8-bit field *)
 Example C02_example :
   encode_num (PI (-3)) 16 true (PI 1) = Ok 65533 /\ sign_extend true 16 65533 = -3 /\
   decode_int (fold_left put_fld [(7, 0, 8); (65533, 8, 16)] 0) 8 16 = 65533 /\
   na_pattern 16 true = 32767.
 Proof. vm_compute. auto. Qed.
+(* the hypotheses of C02_float are satisfiable: 16-bit field at resolution 0.0001, raw 49 *)
+Example C02_float_example :
+  num_field_ok 16 false (PF (float_of_bits 4547007122018943789)) /\
+  exists v, number_of_raw 49 16 false (PF (float_of_bits 4547007122018943789)) (PI 0) (PI 7) = Ok v /\
+            encode_number v 16 false (PF (float_of_bits 4547007122018943789)) = Ok 49.
+Proof. split; [split; vm_compute; [reflexivity | discriminate] | eexists; split; vm_compute; reflexivity]. Qed.
